@@ -171,7 +171,23 @@ package job
 //@   ensures [C12] kill-due-ends-killed-once-settled: result1 == nil && !admErr(rj) && IsStarted(rj) && !rj.Spec.KillTimestamp.IsZero() && ns(rj.Spec.KillTimestamp.Time) <= old(clock)
 //@        && (forall i int :: 0 <= i && i < parallel.numIdx(parallel.specOf(rj)) ==> settledI(rj, i))
 //@        ==> result0.Finished != nil && result0.Finished.Result == execution.JobResultKilled
+//@   ensures clock >= old(clock)
 //@   ensures [C12] kill-due-waits-for-tasks: result1 == nil && !admErr(rj) && IsStarted(rj) && !rj.Spec.KillTimestamp.IsZero() && ns(rj.Spec.KillTimestamp.Time) <= old(clock)
 //@        && (exists i int :: 0 <= i && i < parallel.numIdx(parallel.specOf(rj)) && !settledI(rj, i))
 //@        ==> result0.Waiting != nil && result0.Finished == nil
 //@   ensures [C11] cached-job-untouched: *rj == old(*rj)
+
+// ---- phase.go ------------------------------------------------------------------------------------------------------------------------
+
+//@ func GetPhase
+//@   tags C10, C11
+//@   requires rj != nil
+//@   modifies clock
+//@   loop 1 invariant -1 <= rangeindex && retrying >= 0 && retryBackoff >= 0
+//@   ensures [C11] terminal-iff-finished: result.IsTerminal() <==> rj.Status.Condition.Finished != nil
+//@   ensures [C10] phase-from-result: rj.Status.Condition.Finished != nil ==> result ==
+//@        (rj.Status.Condition.Finished.Result == v1alpha1.JobResultSuccess ? v1alpha1.JobSucceeded
+//@        : (rj.Status.Condition.Finished.Result == v1alpha1.JobResultFailed ? v1alpha1.JobFailed
+//@        : (rj.Status.Condition.Finished.Result == v1alpha1.JobResultKilled ? v1alpha1.JobKilled
+//@        : (rj.Status.Condition.Finished.Result == v1alpha1.JobResultAdmissionError ? v1alpha1.JobAdmissionError : v1alpha1.JobFinishedUnknown))))
+//@   ensures clock >= old(clock)
